@@ -92,6 +92,14 @@ type Replay struct {
 	Trace     []string  `json:"trace,omitempty"`
 	Shrunk    string    `json:"shrunk,omitempty"`
 	RaceText  string    `json:"race_report,omitempty"`
+	// the runs this worker process had executed before the failing one (indices
+	// HistFrom, HistFrom+HistStride, ... below Idx): a violation of a property
+	// quantified over histories may need the state they left in the process.
+	// WithHistory is set by the controller when the failing run alone does not
+	// reproduce in a fresh process but does after re-executing that history.
+	HistFrom    int  `json:"history_from"`
+	HistStride  int  `json:"history_stride"`
+	WithHistory bool `json:"with_history,omitempty"`
 }
 
 var fqFrameRe = regexp.MustCompile(`^(github\.com/wader/fq/.+)\([^()]*\)\s*$`)
